@@ -142,7 +142,7 @@ def build_harness(variant="std"):
 
 # harness files named eng_*.c / hcommon.c / hdrv.c belong to "std"; files named <variant>_*.c to
 # that variant only.
-VARIANT_REPLACED = {}
+VARIANT_REPLACED = {"std": {"scram.c"}}  # compiled via harness/wrap_scram.c
 VARIANT_WRAPS = {"std": ["select", "gettimeofday", "clock_gettime"]}
 
 
